@@ -128,3 +128,20 @@ package keeper
 //@ ensures [stake_goes_back_unless_the_dispute_is_upheld] err == nil && (old(dispute.Votes[id].VoteResult) == types.VoteResult_SUPPORT || old(dispute.Votes[id].VoteResult) == types.VoteResult_NO_QUORUM_MAJORITY_SUPPORT) ==> !called(ReturnSlashedTokens)
 //@ ensures [reporter_gets_stake_and_fee_when_vindicated] err == nil && (old(dispute.Votes[id].VoteResult) == types.VoteResult_AGAINST || old(dispute.Votes[id].VoteResult) == types.VoteResult_NO_QUORUM_MAJORITY_AGAINST) ==> called(ReturnSlashedTokens) && arg(ReturnSlashedTokens, dispute).SlashAmount == 2 * old(dispute.Disputes[id].SlashAmount) - old(dispute.Disputes[id].BurnAmount)
 //@ ensures [reporter_gets_stake_back_when_invalid] err == nil && (old(dispute.Votes[id].VoteResult) == types.VoteResult_INVALID || old(dispute.Votes[id].VoteResult) == types.VoteResult_NO_QUORUM_MAJORITY_INVALID) ==> called(ReturnSlashedTokens) && arg(ReturnSlashedTokens, dispute).SlashAmount == old(dispute.Disputes[id].SlashAmount)
+
+// ---- voter rewards are claimed once (C13) ----
+
+//@ func (k Keeper).CalculateReward(ctx, addr, id) (reward, err)
+//@ trusted
+//@ ensures [reads_only] nothing_written()
+
+//@ func (k Keeper).ClaimReward(ctx, addr, id) (err)
+//@ requires [claimer_is_not_the_dispute_account] acc(addr) != module("dispute")
+//@ modifies dispute.Voter, bank.bal
+//@ ensures [only_resolved_disputes_pay] err == nil ==> old(has(dispute.Disputes, id)) && dispute.Disputes[id].DisputeStatus == types.Resolved
+//@ ensures [pays_exactly_the_calculated_reward_from_escrow] err == nil ==> ret(CalculateReward, 0) > 0 && bank.bal[acc(addr)] == old(bank.bal[acc(addr)]) + ret(CalculateReward, 0) && bank.bal[module("dispute")] == old(bank.bal[module("dispute")]) - ret(CalculateReward, 0)
+//@ ensures [claim_is_recorded_so_it_cannot_repeat] err == nil ==> has(dispute.Voter, pair(id, bytes(addr))) && dispute.Voter[pair(id, bytes(addr))].RewardClaimed
+//@ ensures [a_recorded_claim_is_rejected] old(has(dispute.Voter, pair(id, bytes(addr)))) && old(dispute.Voter[pair(id, bytes(addr))]).RewardClaimed ==> err != nil
+//@ ensures [rejected_claim_changes_nothing] err != nil ==> bank.bal == old(bank.bal)
+//@ ensures [other_accounts_untouched] forall a addr :: a != acc(addr) && a != module("dispute") ==> bank.bal[a] == old(bank.bal[a])
+//@ ensures [other_voters_untouched] forall d int :: forall v bytes :: d != id || v != bytes(addr) ==> (has(dispute.Voter, pair(d, v)) <==> old(has(dispute.Voter, pair(d, v)))) && dispute.Voter[pair(d, v)] == old(dispute.Voter[pair(d, v)])
